@@ -5,10 +5,10 @@ def compare_suffix_probe : List Nat := [2, 2, 2, 1, 0, 1, 1, 2, 2, 1, 0, 2]
 def in_zone_probe : List Bool := [true, true, true, false, false, false, false, true, true, false, true, false]
 def progressing_probe : List Bool := [true, false, false, false, false, false, false, false, true, false, true, false]
 def question_match_probe : List Bool := [true, true, false, false, false, false, false, false]
-def shape_addresses_built_only_by_usableAddr : Bool := false
+def shape_addresses_built_only_by_usableAddr : Bool := true
 def shape_answer_clears_sections : Bool := true
 def shape_answer_filters_before_splice : Bool := true
-def shape_checkhosts_uses_filtered_lookups : Bool := false
+def shape_checkhosts_uses_filtered_lookups : Bool := true
 def shape_delegation_guard_first : Bool := true
 def shape_dname_target_resolved_separately : Bool := true
 def shape_exchange_checks_question : Bool := true
